@@ -117,6 +117,126 @@ class SimRLock:
         self.release()
 
 
+class SimEvent:
+    """Cooperative threading.Event."""
+
+    def __init__(self, sim):
+        self.sim = sim
+        self._flag = False
+
+    def is_set(self):
+        return self._flag
+
+    isSet = is_set
+
+    def set(self):
+        self._flag = True
+
+    def clear(self):
+        self._flag = False
+
+    def wait(self, timeout=None):
+        if not self._flag and self.sim.me() is not None and not self.sim.passthrough:
+            self.sim.block_until(lambda: self._flag, timeout, what=('event',))
+        else:
+            self.sim.yield_point(('event-wait',))
+        return self._flag
+
+
+class SimSemaphore:
+    """Cooperative threading.Semaphore / BoundedSemaphore."""
+
+    def __init__(self, sim, value=1, bounded=False):
+        if value < 0:
+            raise ValueError("semaphore initial value must be >= 0")
+        self.sim = sim
+        self._value = value
+        self._initial = value
+        self._bounded = bounded
+
+    def acquire(self, blocking=True, timeout=None):
+        if not blocking and timeout is not None:
+            raise ValueError("can't specify timeout for non-blocking acquire")
+        self.sim.yield_point(('sem-acq',))
+        if self._value > 0:
+            self._value -= 1
+            return True
+        if not blocking or self.sim.me() is None or self.sim.passthrough:
+            return False
+        if self.sim.block_until(lambda: self._value > 0, timeout, what=('semaphore',)):
+            self._value -= 1
+            return True
+        return False
+
+    def release(self, n=1):
+        if n < 1:
+            raise ValueError('n must be one or more')
+        if self._bounded and self._value + n > self._initial:
+            raise ValueError('Semaphore released too many times')
+        self._value += n
+
+    __enter__ = acquire
+
+    def __exit__(self, *a):
+        self.release()
+
+
+class SimCondition:
+    """Cooperative threading.Condition (over a SimLock / SimRLock)."""
+
+    def __init__(self, sim, lock=None):
+        self.sim = sim
+        self._lock = lock if lock is not None else SimRLock(sim)
+        self._gen = 0
+        self._tokens = 0
+        self.acquire = self._lock.acquire
+        self.release = self._lock.release
+
+    def __enter__(self):
+        return self._lock.__enter__()
+
+    def __exit__(self, *a):
+        return self._lock.__exit__(*a)
+
+    def wait(self, timeout=None):
+        me_gen = self._gen
+        saved = getattr(self._lock, 'depth', 1)
+        owner = self._lock.owner
+        # release fully
+        self._lock.owner = None
+        if hasattr(self._lock, 'depth'):
+            self._lock.depth = 0
+        ok = self.sim.block_until(lambda: self._tokens > 0 and self._gen > me_gen, timeout, what=('condition',))
+        if ok:
+            self._tokens -= 1
+        self.sim.block_until(lambda: self._lock.owner is None, None, what=('condition-reacquire',))
+        self._lock.owner = owner
+        if hasattr(self._lock, 'depth'):
+            self._lock.depth = saved
+        return ok
+
+    def wait_for(self, predicate, timeout=None):
+        end = None if timeout is None else self.sim.now + timeout
+        r = predicate()
+        while not r:
+            left = None if end is None else end - self.sim.now
+            if left is not None and left <= 0:
+                break
+            self.wait(left)
+            r = predicate()
+        return r
+
+    def notify(self, n=1):
+        self._gen += 1
+        self._tokens += n
+
+    def notify_all(self):
+        self._gen += 1
+        self._tokens += 1 << 20
+
+    notifyAll = notify_all
+
+
 class SimCFuture(CFuture):
     def __init__(self, sim):
         super().__init__()
@@ -333,6 +453,10 @@ def install(sim, modules, ledger=None):
                                   if not k.startswith('__')})
     threading_ns.Lock = lambda: SimLock(sim)
     threading_ns.RLock = lambda: SimRLock(sim)
+    threading_ns.Event = lambda: SimEvent(sim)
+    threading_ns.Semaphore = lambda value=1: SimSemaphore(sim, value)
+    threading_ns.BoundedSemaphore = lambda value=1: SimSemaphore(sim, value, bounded=True)
+    threading_ns.Condition = lambda lock=None: SimCondition(sim, lock)
 
     time_ns = types.ModuleType('time_shim')
     time_ns.__dict__.update({k: v for k, v in _real_time.__dict__.items()
@@ -350,6 +474,10 @@ def install(sim, modules, ledger=None):
     by_identity = [
         (_real_threading.Lock, lambda: SimLock(sim)),
         (_real_threading.RLock, lambda: SimRLock(sim)),
+        (_real_threading.Event, lambda: SimEvent(sim)),
+        (_real_threading.Semaphore, lambda value=1: SimSemaphore(sim, value)),
+        (_real_threading.BoundedSemaphore, lambda value=1: SimSemaphore(sim, value, bounded=True)),
+        (_real_threading.Condition, lambda lock=None: SimCondition(sim, lock)),
         (_real_time.sleep, sim.sleep),
         (_real_time.time, lambda: sim.now),
         (_real_time.monotonic, lambda: sim.now),
